@@ -54,8 +54,10 @@ type table struct {
 	fks     []*fkCon
 	indexes []string // names of non-unique indexes
 	slots   []*slot
-	ddlTx   *txn // open transaction that created or altered the table
+	ddlTx   *txn // open transaction that created, altered or dropped the table
+	created *txn // open transaction that created the table (invisible to the inspection API)
 	nDead   int
+	idx     map[*uniqueCon]map[string][]*slot
 }
 
 func (t *table) colIndex(name string) int {
@@ -98,6 +100,44 @@ func (s *slot) visible(tx *txn) []Value {
 type catalog struct {
 	tables  map[string]*table
 	version uint64 // bumped on every schema change
+	fkCache map[string][]fkRef
+	dropped []*table // tables dropped by transactions that are still open
+}
+
+// committedTables lists the tables that exist in the committed state, sorted by name.
+func (c *catalog) committedTables() []*table {
+	var out []*table
+	for _, n := range c.tableNames() {
+		if t := c.tables[n]; t.created == nil {
+			out = append(out, t)
+		}
+	}
+	for _, t := range c.dropped {
+		if t.created == nil {
+			out = append(out, t)
+		}
+	}
+	sort.SliceStable(out, func(i, j int) bool { return out[i].name < out[j].name })
+	return out
+}
+
+// endTx releases the table locks of tx.
+func (c *catalog) endTx(tx *txn) {
+	for _, n := range c.tableNames() {
+		if t := c.tables[n]; t.ddlTx == tx {
+			t.ddlTx, t.created = nil, nil
+		}
+	}
+	kept := c.dropped[:0]
+	for _, t := range c.dropped {
+		if t.ddlTx != tx {
+			kept = append(kept, t)
+		}
+	}
+	for i := len(kept); i < len(c.dropped); i++ {
+		c.dropped[i] = nil
+	}
+	c.dropped = kept
 }
 
 func newCatalog() *catalog { return &catalog{tables: map[string]*table{}} }
@@ -196,7 +236,13 @@ func itoa(i int) string {
 // referencingFKs lists the foreign keys of all tables that reference table name,
 // in deterministic (table name, declaration) order.
 func (c *catalog) referencingFKs(name string) []fkRef {
-	var out []fkRef
+	if out, ok := c.fkCache[name]; ok {
+		return out
+	}
+	if c.fkCache == nil {
+		c.fkCache = map[string][]fkRef{}
+	}
+	out := []fkRef{}
 	for _, tn := range c.tableNames() {
 		t := c.tables[tn]
 		for _, f := range t.fks {
@@ -205,10 +251,127 @@ func (c *catalog) referencingFKs(name string) []fkRef {
 			}
 		}
 	}
+	c.fkCache[name] = out
 	return out
 }
 
 type fkRef struct {
 	child *table
 	fk    *fkCon
+}
+
+// ---- unique-key hash index ----
+//
+// For every unique constraint the table keeps a map from key to the slots that
+// hold (or recently held) a row version with that key. Lookups verify the
+// actual row versions, so stale entries are harmless; they are pruned eagerly
+// where cheap and lazily otherwise. The maps are never iterated.
+
+func (s *slot) holdsKey(cols []int, key []Value) bool {
+	if s.dead {
+		return false
+	}
+	return keyEq(s.committed, cols, key) || (s.pendingTx != nil && !s.pendingDel && keyEq(s.pending, cols, key))
+}
+
+func (t *table) indexRow(s *slot, row []Value) {
+	for _, u := range t.uniques {
+		key, ok := keyVals(row, u.cols)
+		if !ok {
+			continue
+		}
+		if t.idx == nil {
+			t.idx = map[*uniqueCon]map[string][]*slot{}
+		}
+		m := t.idx[u]
+		if m == nil {
+			m = map[string][]*slot{}
+			t.idx[u] = m
+		}
+		k := keyOf(key)
+		found := false
+		for _, o := range m[k] {
+			if o == s {
+				found = true
+				break
+			}
+		}
+		if !found {
+			m[k] = append(m[k], s)
+		}
+	}
+}
+
+// unindexRow drops the index entries of s for the keys of row, unless s still
+// holds a version with that key.
+func (t *table) unindexRow(s *slot, row []Value) {
+	if row == nil {
+		return
+	}
+	for _, u := range t.uniques {
+		key, ok := keyVals(row, u.cols)
+		if !ok || s.holdsKey(u.cols, key) {
+			continue
+		}
+		m := t.idx[u]
+		k := keyOf(key)
+		lst := m[k]
+		for i, o := range lst {
+			if o == s {
+				lst = append(lst[:i:i], lst[i+1:]...)
+				break
+			}
+		}
+		if len(lst) == 0 {
+			delete(m, k)
+		} else {
+			m[k] = lst
+		}
+	}
+}
+
+func (t *table) candidates(u *uniqueCon, key []Value) []*slot {
+	return t.idx[u][keyOf(key)]
+}
+
+// candidatesCols returns the slots that may hold key in the given columns,
+// using a unique index over exactly those columns if there is one.
+func (t *table) candidatesCols(cols []int, key []Value) []*slot {
+	for _, u := range t.uniques {
+		if len(u.cols) != len(cols) {
+			continue
+		}
+		perm := make([]Value, len(cols))
+		ok := true
+		for i, uc := range u.cols {
+			found := false
+			for j, c := range cols {
+				if c == uc {
+					perm[i], found = key[j], true
+				}
+			}
+			ok = ok && found
+		}
+		if ok {
+			return t.candidates(u, perm)
+		}
+	}
+	return t.slots
+}
+
+func (t *table) reindex() {
+	t.idx = nil
+	for _, s := range t.slots {
+		if s.committed != nil {
+			t.indexRow(s, s.committed)
+		}
+		if s.pendingTx != nil && !s.pendingDel {
+			t.indexRow(s, s.pending)
+		}
+	}
+}
+
+func (c *catalog) bump() {
+	c.version++
+	c.fkCache = nil
 }
